@@ -66,13 +66,39 @@ Qed.
 
 Ltac same := split; intros; left; assumption.
 
+Definition creates (o : op) (b : Z) : Prop :=
+  match o with
+  | Create b' _ _ _ _ | CreateSized b' _ _ _ _ | Register b' _ _ _ _ => b' = b
+  | _ => False
+  end.
+
+Lemma mut_ref_cells s rf c x :
+  (forall b j id, entryA (attrs (mut_ref s rf c x)) b j id -> entryA (attrs s) b j id) /\
+  (forall b id, dcellA (attrs (mut_ref s rf c x)) b id -> dcellA (attrs s) b id).
+Proof.
+  destruct rf as [id'|a stamp k|a st|]; simpl; try (split; intros; assumption).
+  - destruct (nth_error (hp s) id'); simpl; split; intros; assumption.
+  - destruct (lookup a (attrs s)) as [at_|] eqn:La; [|split; intros; assumption].
+    destruct (ast at_) as [m|ne st rows] eqn:St; [split; intros; assumption|].
+    destruct (st =? stamp); [|split; intros; assumption]. simpl. split.
+    + intros b j id H. apply entry_put in H. destruct H as [[Eb [m' [St' Lk]]]|[_ H]]; [discriminate|exact H].
+    + intros b id H. apply dcell_put in H. destruct H as [[Eb D]|[_ H]]; [|exact H]. subst b. exists at_. auto.
+Qed.
+
+Ltac by_mut t rf c x := destruct (mut_ref_cells t rf c x) as [M1 M2]; split; intros; left; [apply M1|apply M2]; assumption.
+
+Lemma do_get_attrs s a k : attrs (fst (do_get s a k)) = attrs s.
+Proof.
+  unfold do_get. repeat (match goal with |- context [match ?x with _ => _ end] => destruct x end); reflexivity.
+Qed.
+
 (* one step: the cells held afterwards are the cells held before, except the one cell a vector write / a creation allocates *)
 Lemma step_cells s o s' w :
   inv s -> step s o = (s', w) ->
   (forall b j id, entryA (attrs s') b j id ->
                   entryA (attrs s) b j id \/ (id = length (hp s) /\ exists v, o = SetItem b j v)) /\
   (forall b id, dcellA (attrs s') b id ->
-                dcellA (attrs s) b id \/ (id = length (hp s) /\ exists t k dn d, o = Create b t k dn d)).
+                dcellA (attrs s) b id \/ (id = length (hp s) /\ creates o b)).
 Proof.
   intros Hi E. unfold step in E. change (attrs s) with (attrs (tick s)). change (hp s) with (hp (tick s)).
   apply inv_tick in Hi. set (t := tick s) in *. clearbody t. clear s.
@@ -93,7 +119,7 @@ Proof.
       * intros b j id H. apply entry_put in H. destruct H as [[_ [m [St Lk]]]|[_ H]]; [|left; exact H].
         simpl in St. unfold new_storage in St. destruct dense; inversion St; subst. discriminate.
       * intros b id H. apply dcell_put in H. destruct H as [[Eb D]|[_ H]]; [|left; exact H].
-        simpl in D. inversion D. right. split; [reflexivity|]. subst b. eauto.
+        simpl in D. inversion D. right. split; [reflexivity|]. subst b. reflexivity.
   - (* Delete *)
     inversion E; subst; clear E. simpl. split.
     + intros b j id [at_ [m [L R]]]. rewrite lookup_del in L. destruct (b =? a); [discriminate|]. left. exists at_, m. auto.
@@ -120,13 +146,9 @@ Proof.
     unfold do_get in E.
     repeat (match type of E with context [match ?x with _ => _ end] => destruct x end); inversion E; subst; simpl; same.
   - (* Mut *)
-    unfold do_mut in E. destruct (nth_error (refs t) r) as [rf|]; [|inversion E; subst; same].
-    inversion E; subst; clear E. destruct rf as [id'|a stamp k]; simpl.
-    + destruct (nth_error (hp t) id'); simpl; same.
-    + destruct (lookup a (attrs t)) as [at_|] eqn:La; [|same]. destruct (ast at_) as [m|ne st rows] eqn:St; [same|].
-      destruct (st =? stamp); [|same]. simpl. split.
-      * intros b j id H. apply entry_put in H. destruct H as [[Eb [m' [St' Lk]]]|[_ H]]; [discriminate|left; exact H].
-      * intros b id H. apply dcell_put in H. destruct H as [[Eb D]|[_ H]]; [|left; exact H]. left. subst b. exists at_. auto.
+    unfold do_mut in E. destruct (nth_error (refs t) r) as [[id'|a0 st0 k0|a0 st0|]|]; try (inversion E; subst; same).
+    + assert (S' : s' = mut_ref t (RObj id') c x) by (inversion E; reflexivity). subst s'. by_mut t (RObj id') c x.
+    + assert (S' : s' = mut_ref t (RRow a0 st0 k0) c x) by (inversion E; reflexivity). subst s'. by_mut t (RRow a0 st0 k0) c x.
   - unfold grow in E. inversion E; subst; clear E. simpl. apply grow_cells.
   - unfold grow in E. inversion E; subst; clear E. simpl. apply grow_cells.
   - unfold grow in E. inversion E; subst; clear E. simpl. apply grow_cells.
@@ -149,31 +171,138 @@ Proof.
     + intros b id [at_ [L _]]. discriminate.
   - inversion E; subst; same.
   - inversion E; subst; same.
+  - (* Update *)
+    unfold do_update in E. pose proof (do_get_attrs t a key) as GA. destruct (do_get t a key) as [s1 w1]. simpl in GA.
+    destruct w1; try (inversion E; subst; rewrite GA; same). destruct isvec; [|inversion E; subst; rewrite GA; same].
+    destruct ((c <? 0) || (c >=? Z.of_nat (length row))); [inversion E; subst; rewrite GA; same|].
+    destruct (nth_error (refs s1) (length (refs t))) as [rf|]; [|inversion E; subst; rewrite GA; same].
+    assert (S' : s' = mut_ref s1 rf c x) by (inversion E; reflexivity). subst s'. rewrite <- GA. by_mut s1 rf c x.
+  - (* MutArr *)
+    unfold do_mut_arr in E. destruct (nth_error (refs t) r) as [[id'|a0 st0 k0|a0 st0|]|]; try (inversion E; subst; same).
+    destruct (row <? 0); [inversion E; subst; same|].
+    assert (S' : s' = mut_ref t (RRow a0 st0 row) c x) by (inversion E; reflexivity). subst s'. by_mut t (RRow a0 st0 row) c x.
+  - (* Contains *)
+    unfold do_contains in E.
+    repeat (match type of E with context [match ?x with _ => _ end] => destruct x end); inversion E; subst; same.
+  - (* ExtendListBad *)
+    destruct (corner t).
+    + inversion E; subst; same.
+    + unfold grow in E. inversion E; subst; clear E. simpl. apply grow_cells.
+  - (* CreateSized *)
+    unfold do_create_sized in E.
+    destruct (match lookup a (attrs t) with Some _ => create_keeps_existing | None => false end); [inversion E; subst; same|].
+    unfold mk_default in E. destruct d as [c|].
+    + destruct (kind_of c) as [td|]; [|inversion E; subst; same].
+      destruct (default_type_bad td t0); inversion E; subst; clear E; [same|]. simpl. split.
+      * intros b j id H. apply entry_put in H. destruct H as [[_ [m [St Lk]]]|[_ H]]; [discriminate|left; exact H].
+      * intros b id H. apply dcell_put in H. destruct H as [[_ D]|[_ H]]; [discriminate|left; exact H].
+    + destruct (k =? 1); inversion E; subst; clear E; simpl; split.
+      * intros b j id H. apply entry_put in H. destruct H as [[_ [m [St Lk]]]|[_ H]]; [discriminate|left; exact H].
+      * intros b id H. apply dcell_put in H. destruct H as [[_ D]|[_ H]]; [discriminate|left; exact H].
+      * intros b j id H. apply entry_put in H. destruct H as [[_ [m [St Lk]]]|[_ H]]; [discriminate|left; exact H].
+      * intros b id H. apply dcell_put in H. destruct H as [[Eb D]|[_ H]]; [|left; exact H].
+        simpl in D. inversion D. right. split; [reflexivity|]. subst b. reflexivity.
+  - (* Register *)
+    unfold do_register in E.
+    destruct (match lookup a (attrs t) with Some _ => register_keeps_existing | None => false end); [inversion E; subst; same|].
+    destruct (negb (Z.of_nat (length rows) =? sn t)); [inversion E; subst; same|].
+    destruct (sn t =? 0); [inversion E; subst; same|].
+    unfold mk_default in E. destruct d as [c|].
+    + destruct (kind_of c) as [td|]; [|inversion E; subst; same].
+      destruct (default_type_bad td t0); inversion E; subst; clear E; [same|]. simpl. split.
+      * intros b j id H. apply entry_put in H. destruct H as [[_ [m [St Lk]]]|[_ H]]; [discriminate|left; exact H].
+      * intros b id H. apply dcell_put in H. destruct H as [[_ D]|[_ H]]; [discriminate|left; exact H].
+    + destruct (k =? 1); inversion E; subst; clear E; simpl; split.
+      * intros b j id H. apply entry_put in H. destruct H as [[_ [m [St Lk]]]|[_ H]]; [discriminate|left; exact H].
+      * intros b id H. apply dcell_put in H. destruct H as [[_ D]|[_ H]]; [discriminate|left; exact H].
+      * intros b j id H. apply entry_put in H. destruct H as [[_ [m [St Lk]]]|[_ H]]; [discriminate|left; exact H].
+      * intros b id H. apply dcell_put in H. destruct H as [[Eb D]|[_ H]]; [|left; exact H].
+        simpl in D. inversion D. right. split; [reflexivity|]. subst b. reflexivity.
 Qed.
 
 (* heaps only grow, references are only ever appended *)
+Definition mono (t s' : state) : Prop :=
+  (length (hp t) <= length (hp s'))%nat /\ exists extra, refs s' = refs t ++ extra.
+
+Lemma mono_refl t : mono t t.
+Proof. split; [lia|exists []; now rewrite app_nil_r]. Qed.
+
+Lemma mono_trans a b c : mono a b -> mono b c -> mono a c.
+Proof. intros [H1 [e1 E1]] [H2 [e2 E2]]. split; [lia|]. exists (e1 ++ e2). rewrite E2, E1. now rewrite app_assoc. Qed.
+
+Lemma mut_ref_mono t rf c x : mono t (mut_ref t rf c x).
+Proof.
+  destruct rf as [id|a st k|a st|]; simpl; try apply mono_refl.
+  - destruct (nth_error (hp t) id); simpl; [|apply mono_refl]. split; [simpl; rewrite length_upd; lia|exists []; simpl; now rewrite app_nil_r].
+  - destruct (lookup a (attrs t)) as [xx|]; [|apply mono_refl]. destruct (ast xx); [apply mono_refl|].
+    destruct (_ =? _); [|apply mono_refl]. split; [simpl; lia|exists []; simpl; now rewrite app_nil_r].
+Qed.
+
+Lemma do_get_mono t a k : mono t (fst (do_get t a k)).
+Proof.
+  unfold do_get. repeat (match goal with |- context [match ?x with _ => _ end] => destruct x end); simpl;
+    try apply mono_refl; split; simpl; rewrite ?app_length; simpl; try lia; eexists; reflexivity.
+Qed.
+
+Ltac fin := first [apply mono_refl | split; [simpl; rewrite ?app_length; simpl; lia | first [exists []; simpl; now rewrite app_nil_r | eexists; simpl; reflexivity]]].
+
 Lemma step_mono s o s' w :
   step s o = (s', w) -> (length (hp s) <= length (hp s'))%nat /\ exists extra, refs s' = refs s ++ extra.
 Proof.
   intros E. unfold step in E. change (hp s) with (hp (tick s)). change (refs s) with (refs (tick s)).
-  set (t := tick s) in *. clearbody t. clear s.
-  assert (Z0 : (length (hp t) <= length (hp t))%nat /\ exists extra, refs t = refs t ++ extra)
-    by (split; [lia|exists []; now rewrite app_nil_r]).
+  set (t := tick s) in *. clearbody t. clear s. fold (mono t s').
+  assert (Z0 := mono_refl t).
+  assert (MK : forall tt k d e0 f0, mk_default (hp t) tt k d = inr (e0, f0) -> (length (hp t) <= length e0)%nat).
+  { intros tt k d e0 f0 H. unfold mk_default in H. destruct d as [c|].
+    - destruct (kind_of c); [|discriminate]. destruct (default_type_bad _ _); inversion H; subst; lia.
+    - destruct (k =? 1); inversion H; subst; [lia|]. rewrite app_length; simpl; lia. }
   destruct o; simpl in E.
-  1:{ unfold do_create in E.
-      destruct (match lookup a (attrs t) with Some _ => create_keeps_existing | None => false end); [inversion E; subst; exact Z0|].
-      unfold mk_default in E. destruct d as [c|].
-      - destruct (kind_of c); [|inversion E; subst; exact Z0]. destruct (default_type_bad _ _); inversion E; subst; exact Z0.
-      - destruct (k =? 1); inversion E; subst; simpl; [exact Z0|].
-        split; [rewrite app_length; simpl; lia|exists []; now rewrite app_nil_r]. }
-  all: unfold do_set, do_get, do_mut, do_clear_attr, do_as_array, grow in E;
-    repeat (match type of E with context [match ?x with _ => _ end] => destruct x end);
-    inversion E; subst; clear E; simpl; try exact Z0;
-    try (split; [rewrite ?app_length; simpl; lia|first [exists []; now rewrite app_nil_r | eexists; reflexivity]]).
-  (* the in-place update *)
-  unfold mut_ref. destruct r0 as [id|a st k].
-  - destruct (nth_error (hp t) id); simpl; [|exact Z0]. split; [rewrite length_upd; lia|exists []; now rewrite app_nil_r].
-  - destruct (lookup a (attrs t)) as [xx|]; [|exact Z0]. destruct (ast xx); [exact Z0|]. destruct (_ =? _); exact Z0.
+  - unfold do_create in E.
+    destruct (match lookup a (attrs t) with Some _ => create_keeps_existing | None => false end); [inversion E; subst; fin|].
+    destruct (mk_default (hp t) t0 k d) as [e|[h' df]] eqn:M; inversion E; subst; [fin|].
+    split; [simpl; eapply MK; eauto|exists []; now rewrite app_nil_r].
+  - inversion E; subst; fin.
+  - inversion E; subst; fin.
+  - unfold do_set in E. repeat (match type of E with context [match ?x with _ => _ end] => destruct x end);
+      inversion E; subst; fin.
+  - assert (S' : s' = fst (do_get t a key)) by now rewrite E. subst s'. apply do_get_mono.
+  - unfold do_mut in E. destruct (nth_error (refs t) r) as [[id|a st k|a st|]|]; try (inversion E; subst; fin).
+    + assert (S' : s' = mut_ref t (RObj id) c x) by (inversion E; reflexivity). subst s'. apply mut_ref_mono.
+    + assert (S' : s' = mut_ref t (RRow a st k) c x) by (inversion E; reflexivity). subst s'. apply mut_ref_mono.
+  - unfold grow in E; inversion E; subst; fin.
+  - unfold grow in E; inversion E; subst; fin.
+  - unfold grow in E; inversion E; subst; fin.
+  - unfold grow in E; inversion E; subst; fin.
+  - inversion E; subst; fin.
+  - unfold do_clear_attr in E. repeat (match type of E with context [match ?x with _ => _ end] => destruct x end);
+      inversion E; subst; fin.
+  - unfold do_as_array in E. repeat (match type of E with context [match ?x with _ => _ end] => destruct x end);
+      inversion E; subst; fin.
+  - repeat (match type of E with context [match ?x with _ => _ end] => destruct x end); inversion E; subst; fin.
+  - repeat (match type of E with context [match ?x with _ => _ end] => destruct x end); inversion E; subst; fin.
+  - inversion E; subst; fin.
+  - inversion E; subst; fin.
+  - inversion E; subst; fin.
+  - unfold do_update in E. pose proof (do_get_mono t a key) as G. destruct (do_get t a key) as [s1 w1]. simpl in G.
+    destruct w1; try (inversion E; subst; exact G). destruct isvec; [|inversion E; subst; exact G].
+    destruct ((c <? 0) || (c >=? Z.of_nat (length row))); [inversion E; subst; exact G|].
+    destruct (nth_error (refs s1) (length (refs t))) as [rf|]; [|inversion E; subst; exact G].
+    assert (S' : s' = mut_ref s1 rf c x) by (inversion E; reflexivity). subst s'. eapply mono_trans; [exact G|apply mut_ref_mono].
+  - unfold do_mut_arr in E. destruct (nth_error (refs t) r) as [[id|a st k|a st|]|]; try (inversion E; subst; fin).
+    destruct (row <? 0); [inversion E; subst; fin|].
+    assert (S' : s' = mut_ref t (RRow a st row) c x) by (inversion E; reflexivity). subst s'. apply mut_ref_mono.
+  - unfold do_contains in E. repeat (match type of E with context [match ?x with _ => _ end] => destruct x end);
+      inversion E; subst; fin.
+  - destruct (corner t); [inversion E; subst; fin|unfold grow in E; inversion E; subst; fin].
+  - unfold do_create_sized in E.
+    destruct (match lookup a (attrs t) with Some _ => create_keeps_existing | None => false end); [inversion E; subst; fin|].
+    destruct (mk_default (hp t) t0 k d) as [e|[h' df]] eqn:M; inversion E; subst; [fin|].
+    split; [simpl; eapply MK; eauto|exists []; now rewrite app_nil_r].
+  - unfold do_register in E.
+    destruct (match lookup a (attrs t) with Some _ => register_keeps_existing | None => false end); [inversion E; subst; fin|].
+    destruct (negb _); [inversion E; subst; fin|]. destruct (sn t =? 0); [inversion E; subst; fin|].
+    destruct (mk_default (hp t) t0 k d) as [e|[h' df]] eqn:M; inversion E; subst; [fin|].
+    split; [simpl; eapply MK; eauto|exists []; now rewrite app_nil_r].
 Qed.
 
 Lemma tracked_step s o s' w id a i :
@@ -197,9 +326,9 @@ Proof.
     + intros b' j' H2. destruct (C1 _ _ _ H2) as [H3|[_ [v' Eo']]].
       * apply (entry_valid s) in H3; [lia|exact Hi].
       * rewrite Eo in Eo'. inversion Eo'. auto.
-    + intros b' H2. destruct (C2 _ _ H2) as [H3|[_ [t [k [dn [d Eo']]]]]].
+    + intros b' H2. destruct (C2 _ _ H2) as [H3|[_ Eo']].
       * apply (dcell_valid s) in H3; [lia|exact Hi].
-      * rewrite Eo in Eo'. discriminate.
+      * rewrite Eo in Eo'. exact Eo'.
 Qed.
 
 Lemma own_init c : own (init c).
@@ -238,6 +367,7 @@ Lemma get_ref s a i s' w :
              match rf with
              | RObj id => tracked id a i s'
              | RRow a' _ i' => a' = a /\ i' = i
+             | RArr _ _ | RNone => False
              end.
 Proof.
   intros Hi Ow E HL. unfold step in E. simpl in E.
@@ -280,11 +410,11 @@ Qed.
 
 Lemma mut_frame s rf c x a i b j :
   inv s ->
-  match rf with RObj id => tracked id a i s | RRow a' _ i' => a' = a /\ i' = i /\ 0 <= i end ->
+  match rf with RObj id => tracked id a i s | RRow a' _ i' => a' = a /\ i' = i /\ 0 <= i | RArr _ _ | RNone => True end ->
   (b, j) <> (a, i) ->
   rd (mut_ref s rf c x) b j = rd s b j.
 Proof.
-  intros Hi Hrf N. destruct rf as [id|a' stamp i']; simpl.
+  intros Hi Hrf N. destruct rf as [id|a' stamp i'|a' st'|]; simpl; [| |reflexivity|reflexivity].
   - destruct Hrf as [T1 [T2 T3]]. destruct (nth_error (hp s) id) as [cl|] eqn:Hc; [|reflexivity].
     unfold rd. simpl. destruct (lookup b (attrs s)) as [xb|] eqn:Lb; [|reflexivity].
     apply rd_attr_heap_upd.
@@ -318,10 +448,43 @@ Proof.
   destruct (get_ref _ _ _ _ _ Hi1 Ow1 Eg HL) as [rf [Hr Hrf]]. fold r in Hr.
   pose proof (inv_run sg h2 Hig H2) as Hi2. fold s2 in Hi2.
   pose proof (refs_run sg h2 r rf Hr) as Hr2. fold s2 in Hr2.
-  unfold step. simpl. unfold do_mut. change (refs (tick s2)) with (refs s2). rewrite Hr2. simpl.
-  change (rd s2 b j) with (rd (tick s2) b j). apply mut_frame with (a := a) (i := i); [exact Hi2| |exact N].
-  destruct rf as [id|a' st i'].
+  assert (SM : match rf with RArr _ _ | RNone => True | _ => fst (step s2 (Mut r cc x)) = mut_ref (tick s2) rf cc x end).
+  { unfold step. simpl. unfold do_mut. change (refs (tick s2)) with (refs s2). rewrite Hr2. destruct rf; auto. }
+  destruct rf as [id|a' st i'|a' st|]; [| |contradiction|contradiction]; rewrite SM;
+    change (rd s2 b j) with (rd (tick s2) b j); apply mut_frame with (a := a) (i := i); try exact Hi2; try exact N.
   - apply (tracked_run sg h2 id a i Hig H2 Hrf).
   - destruct Hrf as [E1 E2]. split; [exact E1|]. split; [exact E2|]. subst i'.
     destruct Hig as [_ [_ HF]]. rewrite Forall_forall in HF. apply nth_error_In in Hr. apply (HF _ Hr).
+Qed.
+
+(* ------------------------------------------------------------------ updates through an exported array *)
+(* dense as_array returns a view of the attribute's array, sparse as_array a detached array: an update of element
+   (row, c) of the export changes at most entry (a, row) of the exported attribute - nothing of any other attribute,
+   no other row - and nothing at all for a sparse export *)
+Lemma as_array_ref s a s' w :
+  step s (AsArray a) = (s', w) -> length (refs s') = S (length (refs s)) ->
+  exists rf, nth_error (refs s') (length (refs s)) = Some rf /\
+             match rf with RArr a' _ => a' = a | RNone => True | _ => False end.
+Proof.
+  intros E HL. unfold step in E. simpl in E. unfold do_as_array in E. change (refs s) with (refs (tick s)) in *.
+  set (t := tick s) in *. clearbody t. clear s.
+  destruct (lookup a (attrs t)) as [at_|]; [|inversion E; subst; lia].
+  destruct (ast at_) as [m|ne st rows].
+  - destruct (fill_rows _ _ _ _ _); inversion E; subst; [|lia]. simpl. exists RNone. split; [apply nth_error_app_new|exact I].
+  - inversion E; subst. simpl. exists (RArr a st). split; [apply nth_error_app_new|reflexivity].
+Qed.
+
+Theorem export_update_frame : forall s r rf row c x,
+  inv s -> nth_error (refs s) r = Some rf ->
+  match rf with
+  | RArr a _ => forall b j, (b, j) <> (a, row) -> rd (fst (step s (MutArr r row c x))) b j = rd s b j
+  | RNone => forall b j, rd (fst (step s (MutArr r row c x))) b j = rd s b j
+  | _ => True
+  end.
+Proof.
+  intros s r rf row c x Hi Hr. destruct rf as [id|a st k|a st|]; try exact I.
+  - intros b j N. unfold step. simpl. unfold do_mut_arr. change (refs (tick s)) with (refs s). rewrite Hr.
+    destruct (row <? 0) eqn:Rw; [reflexivity|]. cbn [fst]. change (rd s b j) with (rd (tick s) b j).
+    apply mut_frame with (a := a) (i := row); [exact Hi| |exact N]. repeat split; lia.
+  - intros b j. unfold step. simpl. unfold do_mut_arr. change (refs (tick s)) with (refs s). rewrite Hr. reflexivity.
 Qed.
